@@ -1,4 +1,5 @@
 """Helpers shared by the property harnesses: canonical forms, invariant, call wrapper."""
+import numbers
 import contextlib
 import io
 
@@ -62,7 +63,7 @@ def wellformed(t):
         if not isinstance(e[-1], str) or e[-1] != e[-1].strip():
             return "label-whitespace"
         for v in e[:-1]:
-            if not isinstance(v, (int, float)) or isinstance(v, bool):
+            if not isinstance(v, numbers.Real) or isinstance(v, bool):  # ints, floats and exact rationals are numbers; strings are not
                 return "non-numeric-time"
     with contextlib.redirect_stdout(io.StringIO()):
         ok = t.validate("silence")
